@@ -734,6 +734,33 @@ class AssignPartitioningIndex(Blockwise):
 class BaseSetIndexSortValues(Expr):
     _is_length_preserving = True
 
+    def _filter_passthrough_available(self, parent, dependents):
+        return super()._filter_passthrough_available(
+            parent, dependents
+        ) and self._predicate_is_order_independent(parent.predicate)
+
+    def _predicate_is_order_independent(self, predicate):
+        # Cumulative and window operations in the predicate see the row
+        # order that this expression defines, they can't move below it
+        from dask_expr._expr import MapOverlap, _DelayedExpr
+        from dask_expr._reductions import (
+            ApplyConcatApply,
+            ShuffleReduce,
+            TreeReduce,
+        )
+
+        allowed = (Blockwise, ApplyConcatApply, TreeReduce, ShuffleReduce, _DelayedExpr)
+        stack, seen = [predicate], set()
+        while stack:
+            e = stack.pop()
+            if e._name == self._name or e._name in seen:
+                continue
+            seen.add(e._name)
+            if not isinstance(e, allowed) or isinstance(e, MapOverlap):
+                return False
+            stack.extend(e.dependencies())
+        return True
+
     def _divisions(self):
         if "user_divisions" in self._parameters and self.user_divisions is not None:
             return self.user_divisions
@@ -941,7 +968,9 @@ class SetIndex(BaseSetIndexSortValues):
             from dask_expr._expr import Index
 
             p = parent.predicate
-            return not any(isinstance(x, Index) for x in p.walk())
+            return not any(
+                isinstance(x, Index) for x in p.walk()
+            ) and self._predicate_is_order_independent(p)
         return False
 
 
